@@ -381,7 +381,7 @@ Definition find_variable (value : str) : res (option pv) :=
   end.
 
 (** find_map over [find_foreign_key, find_component, find_variable], else a literal *)
-Definition parse_step (value : str) : res pv :=
+Definition parse_chain (value : str) : res pv :=
   bind (find_foreign_key value) (fun fk =>
   match fk with
   | Some v => Ok v
@@ -397,6 +397,28 @@ Definition parse_step (value : str) : res pv :=
       end)
     end)
   end).
+
+(** a component that opens before a foreign key contains it (`<b>$t(key)</b>`) and is tried first
+    (current code only) *)
+Definition comp_first (value : str) : res bool :=
+  if fixed then
+    match split_once s_fk value with
+    | None => Ok false
+    | Some (fk_before, _) =>
+        bind (find_valid_component (S (length value)) value 0) (fun vc =>
+        Ok (match vc with Some (_, before, _, _) => (blen before <? blen fk_before)%nat | None => false end))
+    end
+  else Ok false.
+
+Definition parse_step (value : str) : res pv :=
+  bind (comp_first value) (fun cf =>
+  if cf then
+    bind (find_component value) (fun comp =>
+    match comp with
+    | Some v => Ok v
+    | None => parse_chain value
+    end)
+  else parse_chain value).
 End Step.
 
 Fixpoint parse (fuel : nat) (value : str) : res pv :=
